@@ -18,6 +18,10 @@ CORRESPONDENCE = ("Model.FGTree.{sort_by_pattern_len,is_subgroup,search_parents,
                   "children as ordered list of names, its parents as a set, exception class)")
 RULE = ("(a) random permutations of the default 32-group list (the model side permutes the GENERATED list Gen/FGDefault.v), built "
         "through build_config_tree_from_list / FGConfigProvider(list of FGConfig) / FGConfigProvider(list of dicts); "
+        "(a') the same construction routes plus FGConfigProvider(list, mapper=...) and the provider of FGQuery(config=list); "
+        "(b') the systematic family of R-prefixed chains over {C,O} with up to 4 heavy atoms (30 patterns): the whole pool and random 5-8-element subsets "
+        "(half of them seeded with a group that has two covering parents sharing an ancestor), each in 2-3 orders; (b'') lists mixing lower-case aromatic and "
+        "upper-case symbols, mostly built WITHOUT a mapper argument (the provider's fallback mapper must be wildcard R / ignore_case=True); "
         "(b) generated lists of 3-8 patterns drawn from a pool of 80 patterns (chains, branched, ring-closed super-patterns such "
         "as CCC / C1CC1 / C1=CC1, wildcards R, multi-bonds, aromatic bonds, hetero atoms, a few isomorphic pairs that make "
         "is_subgroup assert), random group_atoms, ~20% of the lists with anti-patterns, each list in 4 orders. Every case is "
@@ -38,7 +42,8 @@ ASSUMPTIONS = ["configurations are FGConfig objects (or dicts) whose patterns th
                "MatcherSound = theorems C03 / C04_sound of the matcher's owners",
                "default list (with its anti-patterns): closed kernel computation over Gen/FGDefault.v (C07_default_tree_is_hasse)"]
 
-VIAS = ["build", "provider", "dicts"]
+VIAS = ["build", "provider", "dicts", "provider-mapper", "query"]
+NOMAPPER = ["provider", "dicts"]     # construction paths that rely on the provider's fallback mapper
 
 
 def _mk(kind, specs, via, fam, order=None):
@@ -47,11 +52,15 @@ def _mk(kind, specs, via, fam, order=None):
 
 def generate(seed, tier, ncases=None):
     quick = tier == "quick"
-    n_perm = 32 if quick else 300
-    n_lists = 130 if quick else 3000
+    n_perm = 28 if quick else 300
+    n_lists = 90 if quick else 3000
+    n_chain = 36 if quick else 1200       # subsets of the R-chain pool (shapes with two covering parents, shared ancestors)
+    n_ic = 24 if quick else 600           # mixed-case lists, mostly through the no-mapper construction paths
     if ncases:
         n_perm = max(2, ncases // 10)
         n_lists = max(2, ncases // 5)
+        n_chain = max(2, ncases // 10)
+        n_ic = max(2, ncases // 10)
     cases = []
     dspecs = fc.default_specs()
     for i in range(n_perm):
@@ -67,13 +76,50 @@ def generate(seed, tier, ncases=None):
     for j in range(n_lists):
         rng = lib.rng_for(seed, ID, 100000 + j)
         specs = fc.rand_config_list(rng, anti_list_p=0.2)
+        if rng.random() < 0.5:
+            for i, sp0 in enumerate(specs):
+                sp0["name"] = "g%d" % i         # the same tuple of names for different lists of the stream
         for o in range(4):
             sp = list(specs)
             if o == 1:
                 sp.reverse()
             elif o > 1:
                 rng.shuffle(sp)
-            cases.append(_mk("generated", sp, rng.choice(VIAS[:2]), "L%d" % j))
+            cases.append(_mk("generated", sp, rng.choice(VIAS), "L%d" % j))
+    # systematic family: R-prefixed chains over {C, O} with up to 4 heavy atoms (30 patterns): the whole pool and
+    # random 5-8-element subsets, each in 2-3 orders
+    pool = fc.chain_pool(4, "CO")
+    rng = lib.rng_for(seed, ID, 200000)
+    for o in range(2):
+        sp = fc.named(pool, "c")
+        if o:
+            rng.shuffle(sp)
+        cases.append(_mk("chain-pool", sp, VIAS[o], "chain-all"))
+    for j in range(n_chain):
+        rng = lib.rng_for(seed, ID, 200001 + j)
+        sub = rng.sample(pool, rng.randint(5, 8))
+        if rng.random() < 0.5:
+            # bias towards the shape X with two covering parents P, Q that share an ancestor
+            core = rng.choice([["RC", "RO", "RCO", "ROO", "RCOO"], ["RC", "RO", "ROC", "RCC", "RCCO"],
+                               ["RO", "RC", "ROC", "ROO", "ROOC"], ["RC", "RO", "RCO", "RCC", "RCCO", "RCOC"]])
+            sub = list(dict.fromkeys(core + sub))[:8]
+        specs = fc.named(sub, "c")
+        for o in range(rng.choice([2, 3])):
+            sp = list(specs)
+            if o == 1:
+                sp.reverse()
+            elif o > 1:
+                rng.shuffle(sp)
+            cases.append(_mk("chain-subset", sp, rng.choice(VIAS), "K%d" % j))
+    for j in range(n_ic):
+        rng = lib.rng_for(seed, ID, 300000 + j)
+        sub = rng.sample(fc.IC_POOL, rng.randint(3, 6)) + rng.sample(["RC", "CC", "CO", "CN", "C=C", "RO"], rng.randint(0, 2))
+        specs = fc.named(sub, "m")
+        for o in range(2):
+            sp = list(specs)
+            if o:
+                rng.shuffle(sp)
+            cases.append(_mk("mixed-case", sp, rng.choice(NOMAPPER + NOMAPPER + VIAS), "M%d" % j))
     attach_seed_views(cases, fc.SEEDS if quick else fc.SEEDS + ["11", "12345", "random"])
     for c in cases:
         yield c
@@ -87,6 +133,13 @@ def attach_seed_views(cases, seeds):
 
 
 def corpus():
+    cases = list(_corpus())
+    attach_seed_views(cases, fc.SEEDS[:4])      # one batch per seed instead of four interpreters per corpus case
+    for c in cases:
+        yield c
+
+
+def _corpus():
     def L(pats, fam, **kw):
         return _mk("corpus", [dict({"name": "n%d" % i, "pattern": p}, **kw) for i, p in enumerate(pats)], "build", fam)
     # D10: a pattern and its ring-closed super-pattern tie on (pattern_len, size)
@@ -101,6 +154,17 @@ def corpus():
     yield L(["RCR", "RCOH", "RC"], "corpus-t1")
     yield L(["RC", "RCOH", "RC=O", "RCOR"], "corpus-t2")
     yield L(["RCR", "RCRCR", "RCCCR", "RCOCR", "RCCCCR"], "corpus-t3")
+    # two covering parents P = RCO, Q = ROO of X = RCOO; the only other way to Q goes through RO, an ancestor of P too
+    for via in VIAS:
+        c = L(["RC", "RO", "RCO", "ROO", "RCOO"], "corpus-twoparents")
+        c["via"] = via
+        yield c
+    yield L(["RCOO", "ROO", "RCO", "RO", "RC"], "corpus-twoparents")
+    # upper-case aromatic-bond patterns below lower-case ones: needs ignore_case=True, also without a mapper argument
+    for via in VIAS:
+        c = L(["C:C", "ccc", "C:CO", "c1ccccc1O", "ccN"], "corpus-mixedcase")
+        c["via"] = via
+        yield c
     # isomorphic patterns: AssertionError
     yield L(["CC=C", "C=CC", "C"], "corpus-assert")
     yield L(["RO", "RO"], "corpus-assert2")
